@@ -578,6 +578,7 @@ type Eff struct {
 	Fn      *ssa.Function
 	Pos     token.Pos
 	Path    string
+	Top     ssa.Instruction // the call instruction in the root function this effect derives from
 }
 
 func (e Eff) Unresolved() bool {
@@ -665,7 +666,11 @@ func (p *Prog) effectsFrom(r *resolver, ci *capInfo, root *ssa.Function, cut fun
 		for _, s := range sitesOf(fn) {
 			if op, key := p.isDBPrimitive(ci, s); op != "" {
 				bs := r.res(key, nil, fr, 0).list()
-				out = append(out, Eff{Buckets: bs, Op: op, Fn: fn, Pos: s.Pos(), Path: strings.Join(names, " → ")})
+				top := ssa.Instruction(s.Instr)
+				for f2 := fr; f2 != nil && f2.parent != nil; f2 = f2.parent {
+					top = f2.site
+				}
+				out = append(out, Eff{Buckets: bs, Op: op, Fn: fn, Pos: s.Pos(), Path: strings.Join(names, " → "), Top: top})
 				continue
 			}
 			var callees []*ssa.Function
